@@ -50,7 +50,8 @@ class FunctionData:
         have_returns = False
         end_label_pos = None
 
-        name = self.name.replace("_", ".")
+        # labels carry the module-qualified function name
+        name = get_function_name(self.node).replace("_", ".")
 
         for i, instr in enumerate(self.code):
             if instr.op.endswith("al"):
